@@ -150,6 +150,32 @@ theorem vp_valid_only_if (cfg : Cfg) (P : Crypto) (E : Env) (au : Bool) (at_ : O
     | inr h1 => rw [h1] at hcond; simp at hcond; exact ⟨hcond.symm, by omega⟩
   · cases hcs
 
+/-- The exemption from the signature check is PER CREDENTIAL: in a presentation reported valid, every carried credential that
+    is not a proof-less credential issued by the signer itself (`c.issuer ≠ s ∨ c.nProofs > 0`) has passed `Verify` WITH its
+    signature checked — so it satisfies all conjuncts of `valid_only_if`, whatever stands before it in the list (in particular
+    after a proof-less self-attested credential). -/
+theorem vp_every_other_credential_is_signature_checked (cfg : Cfg) (P : Crypto) (E : Env) (au : Bool) (at_ : Option Time) (vp : Pres)
+    (h : verifyVP cfg P E true au at_ vp = .ok ()) :
+    ∃ s, presentationSigner E vp = some s ∧
+      ∀ c ∈ vp.vcs, (c.issuer ≠ s ∨ c.nProofs > 0) →
+        verify cfg P E au true at_ c = .ok () ∧
+        (∃ d, E.parseDID c.issuer = some d ∧ (E.resolve at_ d).isSome = true) ∧ SigValid cfg P E at_ c := by
+  obtain ⟨s, hs, _, _, _, hver, hex⟩ := vp_valid_only_if cfg P E au at_ vp h
+  refine ⟨s, hs, ?_⟩
+  intro c hc hne
+  have hcs : vcCheckSig vp c = true := by
+    cases hb : vcCheckSig vp c with
+    | true => rfl
+    | false =>
+      obtain ⟨h1, h2⟩ := hex c hc hb
+      cases hne with
+      | inl h => exact absurd h1 h
+      | inr h => omega
+  have hv := hver c hc
+  rw [hcs] at hv
+  obtain ⟨_, _, _, _, _, _, hsig⟩ := verify_ok_iff.mp hv
+  exact ⟨hv, hsig rfl⟩
+
 /-- `VerifyVP` accepts exactly when all its checks pass; the order of the three head checks is irrelevant for acceptance -/
 theorem vp_check_order_irrelevant_for_accept (cfg : Cfg) (P : Crypto) (E : Env) (vf au : Bool) (at_ : Option Time) (vp : Pres) :
     (verifyVP cfg P E vf au at_ vp = .ok () ↔ VpAccept cfg P E vf au at_ vp) ∧
@@ -435,6 +461,18 @@ example : verify exCfg exP exE false true (some 2000) { exC with types := [vcTyp
 example : verify exCfg exP { exE with revoked := fun _ => true } false true (some 2000) exC = .err "revoked" := by decide
 example : verify exCfg exP { exE with resolve := fun _ _ => some { assertion := [] } } false true (some 2000) exC = .err "key-unresolvable" := by decide
 example : verifyVP exCfg exP exE true false (some 2000) { exVP with vcs := [{ exC with subjects := some [.did "did:x:h"] }] } = .err "vp-not-by-subject" := by decide
+-- the exemption does not leak: a forged (wrongly signed) third-party credential AFTER a proof-less self-attested one is rejected,
+-- while the same list with the genuine credential is accepted
+def exSelf : Cred := { exU with id := some "did:x:i#self", types := [vcType], proof := .absent, nProofs := 0 }
+def exForged : Cred := { exC with issuer := "did:x:i2", id := some "did:x:i2#1", subjects := some [.did "did:x:i"] }
+def exE2 : Env := { exE with
+    resolve := fun _ d => if d == "did:x:i" then some { assertion := [("did:x:i#k", "K1")] } else if d == "did:x:i2" then some { assertion := [("did:x:i2#k", "K2")] } else none
+    trusted := fun _ _ => true
+    parseDID := fun s => if s == "did:x:i" || s == "did:x:i2" then some s else none
+    didOfURL := fun s => if beforeHash s == "did:x:i" then some "did:x:i" else if beforeHash s == "did:x:i2" then some "did:x:i2" else none }
+example : verifyVP exCfg exP exE2 true false (some 2000) { exVP with vcs := [exSelf, exC] } = .ok () := by decide
+example : verifyVP exCfg exP exE2 true false (some 2000) { exVP with vcs := [exSelf, exForged] } = .err "vc:vm-not-of-issuer" := by decide
+example : verifyVP exCfg exP exE2 true false (some 2000) { exVP with vcs := [exForged, exSelf] } = .err "vc:vm-not-of-issuer" := by decide
 -- tamper_evident: its hypotheses are satisfiable together.  Crypto in which exactly ONE (key, message, signature) triple
 -- verifies (so unforgeability holds with `Signed k m := m = exM0`); c' = the signed credential with another issuance date.
 example : ∃ (Signed : Key → Bytes → Prop) (c' : Cred),
@@ -585,6 +623,8 @@ theorem fact_model_checks_are_the_source_checks (cfg : Cfg) (P : Crypto) (E : En
     (vpHeadChecks E).map (·.name) ++ ["vp:signature", "vp:verify-vcs"] = doVerifyVPReturnsSrc.map (·.1) := by
   refine ⟨rfl, rfl, rfl, rfl, rfl, rfl⟩
 
+/-- doVerifyVP declares `checkSignature := true` inside the loop over the credentials (the model's `vcCheckSig vp c` is per credential) -/
+theorem fact_check_signature_flag_is_per_credential : Nuts.Facts.C01.checkSignatureFlagIsPerCredential = true := by decide
 theorem fact_max_skew : Nuts.Facts.C01.maxSkewMs = 5000 := by decide
 theorem fact_supported_algs : Nuts.Facts.C01.supportedAlgs = ["ES256", "EdDSA", "ES384", "ES512", "PS256", "PS384", "PS512"] := by decide
 theorem fact_signing_key_relation : Nuts.Facts.C01.signingKeyRelation = "AssertionMethod" := by decide
